@@ -2,7 +2,7 @@
 import arith_common as ac
 
 ID = "C10"
-THEOREMS = ["C10_ne_is_not_eq", "C10_int_order", "C10_int_eq_exact", "C10_int_trichotomy", "C10_int_eq_exact_refuted", "C10_int_eq_exact_small",
+THEOREMS = ["C10_ne_is_not_eq", "C10_int_order", "C10_int_eq_exact", "C10_int_trichotomy", "C10_int_eq_former_witness", "C10_int_eq_exact_small",
             "C10_float_trichotomy", "C10_float_eq_iff", "C10_bytes_trichotomy", "C10_ts_trichotomy",
             "C10_mixed_trichotomy", "C10_mixed_eq", "C10_struct_eq", "C10_struct_eq_plain", "C10_kinds_apart",
             "C10_nonvacuous"]
@@ -16,19 +16,18 @@ MANIFEST = {
                  "on values) on a hand model of arithmetic.rs eq_lossy/try_gt/ge/lt/le + differential correspondence vs "
                  "the trait methods and vs compiled `.a <op> .b` programs",
     "text": "Closed Coq theorems over ALL operand pairs of each comparable kind: exactly one of <, ==, > holds, != is the "
-            "negation of ==, <= and >= agree, for two integers (outside the recorded defect class), two non-NaN floats "
+            "negation of ==, <= and >= agree, for ALL pairs of integers, two non-NaN floats "
             "(infinities, both zeros), two byte strings, two timestamps, and integer/float pairs; the orderings of "
             "integers are the exact Z comparisons for all pairs; equality of non-numbers is structural equality with "
-            "the two float zeros identified (nested induction). Integer `==` is exact outside the class "
-            "known_int_eq (different integers with equal f64 conversions), and C10_int_eq_exact_refuted exhibits "
-            "2^53+1 == 2^53 inside it: a genuine defect of the pinned tree, recorded in known_findings/C10.json. "
+            "the two float zeros identified (nested induction). Integer `==` is exact 64-bit equality for all pairs "
+            "(the defect 2^53+1 == 2^53 of the original tree was repaired in /repo by 7355ec6; the old witness is kept "
+            "as a theorem and a corpus case and now compares unequal). "
             "The model is tied to the code by running all six operators on generated pairs through the trait methods, "
             "through compiled programs on events, and through the Gallina definitions (vm_compute).",
     "note": "Trusted: Coq kernel + vm_compute, the hand-written model Model/Arith.v (tied by correspondence only), "
             "Coq's SpecFloat as the definition of binary64 comparison and of `i64 as f64` (binary_normalize, round to "
             "nearest even), harness JSON codec, Python generator. Error variants are abstracted to a class. "
-            "Print Assumptions: every theorem is closed under the global context except C10_int_eq_exact_small, which uses Flocq's real-number semantics of binary64 and depends on the four standard axioms of Coq's classical reals (sig_not_dec, sig_forall_dec, functional_extensionality_dep, classic). KNOWN FINDING on the pinned tree: eq_lossy compares two integers "
-            "after converting both to f64, so different integers above 2^53 can be `==`.",
+            "Print Assumptions: every theorem is closed under the global context except C10_int_eq_exact_small, which uses Flocq's real-number semantics of binary64 and depends on the four standard axioms of Coq's classical reals (sig_not_dec, sig_forall_dec, functional_extensionality_dep, classic). Former finding C10-int-eq-lossy (eq_lossy compared two integers through f64) is fixed by /repo 7355ec6; known_findings/C10.json records it with status fixed and suppresses nothing.",
     "design_ref": "DESIGN.md section 5 C10",
 }
 
@@ -41,28 +40,13 @@ def nontrivial(c):
     return c["op"] != "any/any"
 
 
-def _int(v):
-    return int(v["i"]) if isinstance(v, dict) and "i" in v else None
-
-
-def known_matcher(entry, case, out):
-    """C10-int-eq-lossy: both operands integers, different, equal after conversion to f64 (Python's int -> float
-    conversion rounds to nearest even like `as f64`), and the implementation says `==`."""
-    if entry.get("match", {}).get("class") != "int-int-equal-as-f64":
-        return False
-    a, b = _int(case["x"]), _int(case["y"])
-    if a is None or b is None or a == b or float(a) != float(b):
-        return False
-    return out.get("direct", {}).get("eq") == {"ok": True} or out.get("e2e", {}).get("eq") == {"ok": True}
-
-
 def main(run, args):
     import checklib
     n = 3000 if run.tier == "quick" else 60000
     if args.cases:
         n = args.cases
     rc = checklib.standard(run, ID, THEOREMS, IMPORTS, "arith", gen_cases, ac.cmp_to_coq, n, nontrivial=nontrivial,
-                             replay=args.replay, allowed_axioms=REALS_AXIOMS, known_matcher=known_matcher)
+                             replay=args.replay, allowed_axioms=REALS_AXIOMS)
     if args.replay:
         return rc
     return ac.axiom_guard(ID, ("C10_int_eq_exact_small",), rc)
